@@ -644,6 +644,55 @@ pub fn run(ctx: &Ctx) -> Report {
     });
     rep.merge(r);
 
+    // ---- (b2) rows of every value kind (integers of all widths, floats, strings, blobs, dates,
+    //      datetimes, durations incl. those under a second, generic values, NULLs) in columns of the
+    //      matching types: each row message must split into exactly one well-formed cell per
+    //      advertised column (the values themselves are C06/C07's business)
+    let n = if ctx.miri { 2 } else { ctx.n(1500, 60_000) };
+    let r = par_cases(ctx, "C03", "rich-rows", n, |rng, i, rep| {
+        let bin = i % 3 != 0;
+        let nc = rng.range(1, 8) as usize;
+        let mut cols = Vec::new();
+        let mut proto = Vec::new();
+        for c in 0..nc {
+            let (ct, fl, v) = super::values::gen_natural(rng, false);
+            cols.push(Column { table: "t".into(), column: format!("c{}", c), coltype: if bin { ct } else { ColumnType::MYSQL_TYPE_VAR_STRING }, colflags: fl });
+            proto.push(v);
+        }
+        let nr = rng.range(1, 5) as usize;
+        let mut ops = vec![QOp::Start(0)];
+        for _ in 0..nr {
+            let cells: Vec<Cell> = (0..nc).map(|c| if rng.chance(1, 5) { Cell::val(V::Null) } else { Cell::val(super::values::gen_like(rng, &proto[c], false)) }).collect();
+            if rng.bool() {
+                ops.push(QOp::Row(cells, RowForm::Owned));
+            } else {
+                for c in cells {
+                    ops.push(QOp::Col(c));
+                }
+                ops.push(QOp::EndRow);
+            }
+        }
+        ops.push(QOp::Finish);
+        let prog = QProg { colsets: vec![cols.clone()], ops, on_err: OnErr::Drop };
+        let mut cmds = vec![Cmd::prepare(b"p")];
+        let scripts = vec![Script::PrepOk { id: 1, params: vec![], cols: cols.clone() }, Script::Q(prog.clone())];
+        cmds.push(if bin { Cmd::execute(1, &[], false) } else { Cmd::query(b"q") });
+        let case = Case::new(with_sentinels(cmds), scripts);
+        let obs = run_case(&case);
+        rep.evaluations += 1;
+        for c in &cols {
+            rep.counters.class(format!("rich row column {:?} ({})", c.coltype, if bin { "bin" } else { "text" }));
+        }
+        let d = || J::obj().set("mode", if bin { "binary" } else { "text" }).set("column_types", cols.iter().map(|c| J::s(format!("{:?}", c.coltype))).collect::<Vec<_>>()).set("rows", nr).set("outcome", obs.outcome.describe());
+        if i == 0 {
+            rep.sample(d());
+        }
+        if check_conformance("C03", &obs, &[None, Some(vec![PPart::Rows { ncols: nc, nrows: nr, err_end: false }])], rep, &d) {
+            rep.counters.inc("rich_row_responses_conformant");
+        }
+    });
+    rep.merge(r);
+
     // ---- (e2) commands that expect no reply (long data for in-range and out-of-range parameter
     //      indexes, CLOSE of known and unknown ids) between sentinels: not one byte for them; and
     //      long data for an id that is not live as the LAST command: whatever the server does with
